@@ -203,6 +203,14 @@ func allChecks() []CheckSpec {
 						c.MaxPaths = 2000000
 						c.MaxWallS = 900
 					}},
+				{Fn: "verifC15RemoveThenGet", Lemma: "schedule exploration over the real TCPMuxDefault (GetConnByUfrag/createConn and its close watcher, RemoveConnByUfrag, Close): get, remove, get again for one ufrag — the first conn's watcher, woken by the removal, runs at any explored moment and neither unregisters nor closes the successor; Close returns",
+					Bounds: "one ufrag and local address, 0..2 fair hand-overs before the second get, at most 1 (thorough 2) preemptions", MustReach: []string{"done"},
+					Cfg: func(c *HarnessCfg, tier int) {
+						c.GoPolicy = "explore"
+						c.ContextBound = 1 + tier
+						c.MaxPaths = 2000000
+						c.MaxWallS = 900
+					}},
 			},
 			Assumptions: append([]string{
 				"sequential: the accept loop, per-connection reader and close watchers are scheduled cooperatively (a blocked goroutine yields); time.AfterFunc callbacks fire only when the harness fires them",
@@ -512,6 +520,9 @@ func allChecks() []CheckSpec {
 					Bounds: "k <= 2 packets of 0..2 (quick) / 0..3 (thorough) bytes, every chunking", MustReach: []string{"done"}},
 				{Fn: "verifC14StartReading", Lemma: "tcpPacketConn.startReading + readFromContext: frames become packets in order with the peer address; a truncated tail ends in an error packet; the stream is closed and removed",
 					Bounds: "0..2 frames of 0..2 bytes, three tail shapes (none, half header, truncated body), every chunking", MustReach: []string{"oversized-frame", "done"}},
+				{Fn: "verifC14BufferedWrite", Lemma: "with a write buffer between the packet conn and the TCP connection (the real bufferedConn and its writeProcess goroutine over the real packetio.Buffer) every packet the framing layer accepts is forwarded to the connection exactly once as the same frame, packets at the receive MTU included, and later packets keep their order",
+					Bounds: "payloads of 5, 8190, 8191 and 8192 bytes (first and last byte symbolic) followed by a 4-byte packet", MustReach: []string{"mtu-sized", "done"},
+					Cfg: func(c *HarnessCfg, tier int) { c.GoPolicy = "queue"; c.MaxAlloc = 1 << 20 }},
 			},
 			Assumptions: append([]string{
 				"net.Conn.Read contract: returns 1..len(p) bytes, or an error; never (0,nil) for a non-empty buffer",
